@@ -50,6 +50,9 @@ type DearmorResult struct {
 	Data     []byte
 	Accepted bool
 	Reason   string
+	// LimitDependent: the verdict hinges on how much outer whitespace is tolerated (more than 500 bytes before BEGIN
+	// or after END); the documented tolerance names no number, so either verdict is consistent with the property.
+	LimitDependent bool
 }
 
 // Dearmor is the strict recogniser with exactly the documented tolerances: CRLF line ends,
@@ -81,6 +84,9 @@ func Dearmor(text string) DearmorResult {
 		}
 		if isSpaceOnly(l) {
 			removed += len(l) + 1
+			if removed > 500 {
+				r.LimitDependent = true
+			}
 			if removed > 1024 {
 				r.Reason = "too much leading whitespace"
 				return r
@@ -124,6 +130,9 @@ func Dearmor(text string) DearmorResult {
 			}
 			break
 		}
+	}
+	if len(rest) > 500 && strings.TrimSpace(rest) == "" {
+		r.LimitDependent = true
 	}
 	if len(rest) >= 1024 {
 		r.Reason = "too much trailing data"
